@@ -18,7 +18,10 @@ import (
 	"io"
 	"log/slog"
 	"net/http"
+	"strconv"
+	"strings"
 	"sync"
+	"sync/atomic"
 
 	"github.com/magisterquis/curlrevshell/lib/opshell"
 	"golang.org/x/sync/errgroup"
@@ -39,7 +42,8 @@ type Broker struct {
 	key       string
 	cancelIn  func()
 	cancelOut func()
-	bidirKey  string /* Bidirectional sentinel key. */
+	bidirKey  string        /* Bidirectional sentinel key prefix. */
+	bidirN    atomic.Uint64 /* Bidirectional connection counter. */
 	wg        sync.WaitGroup
 	noMore    bool
 
@@ -143,17 +147,25 @@ func (b *Broker) ConnectInOut(
 	w io.Writer,
 	r io.Reader,
 ) {
+	/* Both sides get the same per-connection key, so sides of different
+	bidirectional connections can't be mixed. */
+	key := b.bidirKey + strconv.FormatUint(b.bidirN.Add(1), 10)
 	var wg sync.WaitGroup
 	wg.Add(2)
 	go func() {
 		defer wg.Done()
-		b.ConnectIn(ctx, sl, addr, w, b.bidirKey)
+		b.ConnectIn(ctx, sl, addr, w, key)
 	}()
 	go func() {
 		defer wg.Done()
-		b.ConnectOut(ctx, sl, addr, r, b.bidirKey)
+		b.ConnectOut(ctx, sl, addr, r, key)
 	}()
 	wg.Wait()
+}
+
+// isBidirKey returns true if key is for a bidirectional connection.
+func (b *Broker) isBidirKey(key string) bool {
+	return strings.HasPrefix(key, b.bidirKey)
 }
 
 // connect makes sure we can use this stream.  It makes sure there's not
@@ -198,7 +210,7 @@ func (b *Broker) connect(
 	/* Make sure the previous shell isn't still disconnecting. */
 	if "" == b.key && (nil != *cancelUs || nil != *cancelOther) {
 		sl.Error(LMDisconnecting)
-		if key == b.bidirKey {
+		if b.isBidirKey(key) {
 			b.Errorf(
 				addr,
 				"Rejected %s side of bidirectional "+
@@ -221,7 +233,7 @@ func (b *Broker) connect(
 	/* Don't double-connect. */
 	if nil != *cancelUs {
 		sl.Error(LMAlreadyConnected)
-		if key == b.bidirKey {
+		if b.isBidirKey(key) {
 			b.Errorf(
 				addr,
 				"Rejected unexpected %s side of "+
@@ -249,7 +261,7 @@ func (b *Broker) connect(
 			LKKey, b.key,
 			LKIncorrectKey, key,
 		)
-		if key == b.bidirKey {
+		if b.isBidirKey(key) {
 			b.Errorf(
 				addr,
 				"Rejected %s side of bidirectonal "+
@@ -278,7 +290,7 @@ func (b *Broker) connect(
 
 	/* Note we've a new connection. */
 	sl.Info(LMNewConnection)
-	if key != b.bidirKey {
+	if !b.isBidirKey(key) {
 		b.Logf(addr, "%s connected: ID %q", dirT, key)
 	}
 
@@ -298,7 +310,7 @@ func (b *Broker) connect(
 
 	/* Actually do the proxy. */
 	ct := "connection"
-	if key == b.bidirKey {
+	if b.isBidirKey(key) {
 		ct = "side of bidirectional " + ct
 	}
 	msg := fmt.Sprintf("%s %s closed", dirT, ct)
@@ -307,7 +319,7 @@ func (b *Broker) connect(
 		b.Errorf(addr, "%s: %s", msg, err)
 	} else {
 		sl.Info(LMDisconnected)
-		if key != b.bidirKey {
+		if !b.isBidirKey(key) {
 			b.Errorf(addr, "%s", msg)
 		}
 	}
